@@ -126,7 +126,7 @@ int run_c16(verif::Args const& args, verif::Report& rep)
     rep.assume("secondary capacity >= the largest demand of a single interaction (otherwise no progress "
                "is possible by construction; such capacities are not generated)");
 
-    std::uint64_t ncases = args.budget(40, 2500);
+    std::uint64_t ncases = args.budget(40, 800);
     for (std::uint64_t c = 0; c < ncases; ++c)
     {
         std::uint64_t cseed = verif::mix_seed(args.seed, c * 49979687 + 29);
